@@ -127,6 +127,8 @@ def snapshot(sim):
         "qmon": copy.deepcopy(sim.qmon),
         "shadow": dict(sim.shadow),
         "shadow_rev": dict(sim.shadow_rev),
+        "rec_rules": list(sim.rec_rules),
+        "ok_verified": set(sim.ok_verified),
     }
 
 
@@ -135,7 +137,7 @@ def restore(sim, snap, searcher, inst):
     sim.rng = snap["rng"]
     WW.CURRENT_RNG = sim.rng
     inst.swap(clock=sim.clock, rng=sim.rng)
-    for k in ("packets", "slice_packets", "slices", "adds", "cur_label", "qmon", "shadow", "shadow_rev"):
+    for k in ("packets", "slice_packets", "slices", "adds", "cur_label", "qmon", "shadow", "shadow_rev", "rec_rules", "ok_verified"):
         setattr(sim, k, snap[k])
     sim.searcher = searcher
     sim.budgets = []
